@@ -43,6 +43,9 @@ const (
 )
 
 func verifDerr(class, code int64) error {
+	if e := breaker.VerifWrapped(class); e != nil {
+		return e
+	}
 	switch class {
 	case breaker.VDNil:
 		return nil
